@@ -43,7 +43,7 @@ func invParser(p *Parser) bool {
 
 //@ func (*Parser).initInput
 //@ requires p != nil
-//@ modifies p.input, p.data, p.len, p.pos
+//@ modifies p.input, p.data, p.len, p.pos, p.depth
 //@ ensures [inv] invParser(p) && p.pos == 0 && p.input == input
 
 //@ func (*Parser).forward
@@ -55,7 +55,7 @@ func invParser(p *Parser) bool {
 //@ func (*Parser).backward
 //@ requires invParser(p) && n >= 0 && n <= 1<<48
 //@ modifies p.data, p.pos
-//@ ensures [inv]  invParser(p) && p.pos <= old(p.pos)
+//@ ensures [inv]  invParser(p) && p.pos <= old(p.pos) && p.pos >= old(p.pos)-n
 
 //@ func (*Parser).skipSpace
 //@ requires invParser(p)
@@ -118,7 +118,7 @@ func invParser(p *Parser) bool {
 //@ func (*Parser).parseItemSize
 //@ requires invParser(p)
 //@ modifies p.data, p.pos
-//@ ensures [inv]   invParser(p)
+//@ ensures [inv]   invParser(p) && p.pos+1 >= old(p.pos)
 //@ ensures [range] err == nil ==> 0 <= minSize && minSize <= maxSize && maxSize <= 2147483647
 
 // --- error positions ---
@@ -177,7 +177,7 @@ func invDepth(p *Parser) bool { return 0 <= p.depth && p.depth <= 64 }
 //@ paths split
 //@ requires invParser(p) && invDepth(p)
 //@ modifies p.data, p.pos, p.depth
-//@ ensures [inv]   invParser(p) && p.depth == old(p.depth)
+//@ ensures [inv]   invParser(p) && p.depth == old(p.depth) && p.pos >= old(p.pos)
 
 //@ func (*Parser).parseList
 //@ requires invParser(p) && invDepth(p) && 0 <= size && size <= 2147483647
